@@ -430,3 +430,29 @@ class C06(SeqProp):
             if seen_refusal and ob.startswith("ORes (Ok"): return True
             if name == "OpRegister" and ob.startswith("ORes (Err"): seen_refusal = True
         return False
+
+    def run(self, tier, seed, replay=None):
+        """the sequential part (SeqProp.run) and then the concurrent part (tools/p_C06conc.py: histories of register /
+        unregister / gather issued from several threads); one VIOLATION line if either fails; the concurrent counts go
+        into the evidence file under the key `concurrent`"""
+        import p_C06conc
+        if replay and json.load(open(replay)).get("part") == "concurrent":
+            rc2, conc, line = p_C06conc.run_concurrent_part(tier, seed, replay=replay)
+            if line: print(line)
+            return rc2
+        rc = SeqProp.run(self, tier, seed, replay)
+        if replay: return rc
+        rc2, conc, line = p_C06conc.run_concurrent_part(tier, seed)
+        if line and rc != 1: print(line)
+        ep = os.path.join(EVID, "%s.json" % self.pid)
+        try:
+            ev = json.load(open(ep))
+            ev["coverage"]["concurrent"] = conc
+            ev["coverage"]["obligations"] += conc.get("obligations", 0); ev["coverage"]["discharged"] += conc.get("discharged", 0)
+            ev["assumptions"] = ev.get("assumptions", []) + p_C06conc.ASSUMPTIONS
+            ev["violations"] = 1 if 1 in (rc, rc2) else 0
+            ev["wall_s"] = round(ev.get("wall_s", 0) + conc.get("wall_s", 0), 2)
+            with open(ep, "w") as f: json.dump(ev, f, indent=1, sort_keys=True, default=str)
+        except Exception as e:
+            print("[%s] could not extend the evidence file: %s" % (self.pid, e))
+        return rc if rc != 0 else rc2
